@@ -540,6 +540,21 @@ impl Prop for C08 {
         c
     }
 
+    fn preludes(&self, _sc: &UdpSc) -> Vec<UdpSc> {
+        let mut v = Vec::new();
+        for mode in [SizeMode::Compressed, SizeMode::Uncompressed] {
+            for imp in [Imp::Blocking, Imp::Tokio] {
+                v.push(UdpSc {
+                    imp,
+                    mode,
+                    steps: vec![UStep::Burst(vec![mode.pong().to_vec()])],
+                    note: "prelude".into(),
+                });
+            }
+        }
+        v
+    }
+
     fn rule(&self) -> String {
         "Each case is one UDP session over kernel loopback: the peer sends bursts of 1..8 datagrams (each 1..n whole frames, 4..1020 bytes, either one fixed shape repeated as LFS does for MCI/NLP or mixed; peer-side loss, duplication and reordering) up to ~10x the 6120-byte receive buffer, and after each burst the real Framed over the real UdpStream adaptor reads every frame; the application occasionally writes. Oracle: each read returns the model's result for the next frame of the datagrams actually sent, in order; a keep-alive causes exactly one 4-byte reply datagram, nothing else causes any; each write arrives as exactly one datagram equal to the encoded frame. Non-trivial = cumulative traffic beyond one receive buffer, or a network fault applied; distinct = sequence of (log2 datagram size, frames per datagram).".into()
     }
